@@ -7,7 +7,25 @@
     buffer, and if (and only if) a complete, length-consistent message is at
     its front return it with the remaining octets ([None] = "partial":
     scapy falls back to a Raw payload or raises VerifyError, and recv_raw
-    leaves the buffer untouched). *)
+    leaves the buffer untouched).
+
+    Extension items.  In the real dissector (scapy 2.7.0 PacketListField +
+    TlvHead) the *framing* of XFER_SEGMENT/SESS_INIT never depends on what
+    the extension region contains: the region is the next [ext_size] octets,
+    an item that fails to dissect is kept as a Raw blob, and the message-level
+    check only compares the re-encoded length with [ext_size].  The message
+    therefore carries the region as opaque octets ([ext]).  What is *in* the
+    region is described separately:
+      [spec_exts]  -- the RFC 9174 TLV reading (section 4.8 / 5.2.5 layout);
+      [scapy_exts] -- what the implementation's dissector reports as
+                      [ext_items], including its quirk: TlvHead has no
+                      extract_padding, so an item dissects only if its length
+                      field equals *all* that is left of the region; any list
+                      of two or more well-formed items comes out as one Raw.
+    One dependency remains and is modelled: scapy refuses a PacketListField of
+    more than [conf.max_list_count] = 100 entries (the exception escapes the
+    item loop, the message body falls back to Raw and the probe says
+    "partial" for ever); [ext_count_ok]. *)
 From Coq Require Import List NArith ZArith Arith Bool Lia.
 From DTN Require Import Lib.Bytes.
 Import ListNotations.
@@ -17,13 +35,13 @@ Local Open Scope N_scope.
 Record extitem := mkExt { ei_flags : N; ei_type : N; ei_val : bytes }.
 
 Inductive msg :=
-| MXferSeg (flags xid : N) (exts : list extitem) (data : bytes)   (* 0x01 *)
+| MXferSeg (flags xid : N) (ext : bytes) (data : bytes)           (* 0x01; [ext] = raw extension region *)
 | MXferAck (flags xid len : N)                                    (* 0x02 *)
 | MXferRefuse (reason xid : N)                                    (* 0x03 *)
 | MKeepalive                                                      (* 0x04 *)
 | MSessTerm (flags reason : N)                                    (* 0x05 *)
 | MReject (rej_id reason : N)                                     (* 0x06 *)
-| MSessInit (keepalive seg_mru xfer_mru : N) (nodeid : bytes) (exts : list extitem). (* 0x07 *)
+| MSessInit (keepalive seg_mru xfer_mru : N) (nodeid : bytes) (ext : bytes). (* 0x07 *)
 
 (** The six-octet contact header: magic(4) version(1) flags(1). *)
 Record contact := mkContact { ch_magic : bytes; ch_version : N; ch_flags : N }.
@@ -37,9 +55,7 @@ Definition has_start (flags : N) : bool := N.testbit flags 1.
 
 Definition MAGIC : bytes := [100; 116; 110; 33].   (* "dtn!" *)
 
-(** Which extension types are bound to fixed-size classes (extend.py):
-    a bound type must carry exactly that many value octets, otherwise the
-    TLV's post_dissection length check fails. *)
+(** Which extension types are bound to fixed-size classes (extend.py). *)
 Definition xfer_ext_len (ty : N) : option nat :=
   if ty =? 1 then Some 8%nat else if ty =? 255 then Some 10%nat else None.
 Definition sess_ext_len (ty : N) : option nat :=
@@ -48,99 +64,26 @@ Definition sess_ext_len (ty : N) : option nat :=
 Definition ext_len_ok (known : N -> option nat) (ty : N) (len : nat) : bool :=
   match known ty with Some k => (len =? k)%nat | None => true end.
 
-(** ** Encoding *)
+Definition take_n (n : nat) (l : bytes) : option (bytes * bytes) :=
+  if (length l <? n)%nat then None else Some (firstn n l, skipn n l).
+
+(** ** Extension items inside a region *)
 
 Definition encode_ext (e : extitem) : bytes :=
   be 1 (ei_flags e) ++ be 2 (ei_type e) ++ be 2 (N.of_nat (length (ei_val e))) ++ ei_val e.
 
 Definition encode_exts (l : list extitem) : bytes := concat (map encode_ext l).
 
-Definition encode_msg (m : msg) : bytes :=
-  match m with
-  | MXferSeg flags xid exts data =>
-      [1] ++ be 1 flags ++ be 8 xid
-      ++ (if has_start flags
-          then be 4 (N.of_nat (length (encode_exts exts))) ++ encode_exts exts
-          else [])
-      ++ be 8 (N.of_nat (length data)) ++ data
-  | MXferAck flags xid len => [2] ++ be 1 flags ++ be 8 xid ++ be 8 len
-  | MXferRefuse reason xid => [3] ++ be 1 reason ++ be 8 xid
-  | MKeepalive => [4]
-  | MSessTerm flags reason => [5] ++ be 1 flags ++ be 1 reason
-  | MReject rej_id reason => [6] ++ be 1 rej_id ++ be 1 reason
-  | MSessInit ka smru xmru nodeid exts =>
-      [7] ++ be 2 ka ++ be 8 smru ++ be 8 xmru
-      ++ be 2 (N.of_nat (length nodeid)) ++ nodeid
-      ++ be 4 (N.of_nat (length (encode_exts exts))) ++ encode_exts exts
-  end.
-
-Definition encode_contact (c : contact) : bytes :=
-  ch_magic c ++ be 1 (ch_version c) ++ be 1 (ch_flags c).
-
-Definition encode_frame (f : frame) : bytes :=
-  match f with FContact c => encode_contact c | FMsg m => encode_msg m end.
-
-(** ** Well-formedness: every field fits its width *)
-
 Definition wf_ext (known : N -> option nat) (e : extitem) : Prop :=
   ei_flags e < 256 /\ ei_type e < 65536 /\ N.of_nat (length (ei_val e)) < 65536
   /\ wf_bytes (ei_val e) /\ ext_len_ok known (ei_type e) (length (ei_val e)) = true.
 
-Definition wf_msg (m : msg) : Prop :=
-  match m with
-  | MXferSeg flags xid exts data =>
-      flags < 256 /\ xid < 2^64 /\ Forall (wf_ext xfer_ext_len) exts
-      /\ N.of_nat (length (encode_exts exts)) < 2^32
-      /\ (has_start flags = false -> exts = [])
-      /\ N.of_nat (length data) < 2^64 /\ wf_bytes data
-  | MXferAck flags xid len => flags < 256 /\ xid < 2^64 /\ len < 2^64
-  | MXferRefuse reason xid => reason < 256 /\ xid < 2^64
-  | MKeepalive => True
-  | MSessTerm flags reason => flags < 256 /\ reason < 256
-  | MReject rej_id reason => rej_id < 256 /\ reason < 256
-  | MSessInit ka smru xmru nodeid exts =>
-      ka < 65536 /\ smru < 2^64 /\ xmru < 2^64
-      /\ N.of_nat (length nodeid) < 65536 /\ wf_bytes nodeid
-      /\ Forall (wf_ext sess_ext_len) exts
-      /\ N.of_nat (length (encode_exts exts)) < 2^32
-  end.
-
-Definition wf_contact (c : contact) : Prop :=
-  length (ch_magic c) = 4%nat /\ wf_bytes (ch_magic c) /\ ch_version c < 256 /\ ch_flags c < 256.
-
-Definition wf_frame (f : frame) : Prop :=
-  match f with FContact c => wf_contact c | FMsg m => wf_msg m end.
-
-(** Boolean versions (for the generated case files and non-vacuity examples). *)
 Definition wf_extb (known : N -> option nat) (e : extitem) : bool :=
   (ei_flags e <? 256) && (ei_type e <? 65536) && (N.of_nat (length (ei_val e)) <? 65536)
   && wf_bytesb (ei_val e) && ext_len_ok known (ei_type e) (length (ei_val e)).
 
-Definition wf_msgb (m : msg) : bool :=
-  match m with
-  | MXferSeg flags xid exts data =>
-      (flags <? 256) && (xid <? 2^64) && forallb (wf_extb xfer_ext_len) exts
-      && (N.of_nat (length (encode_exts exts)) <? 2^32)
-      && (has_start flags || match exts with [] => true | _ => false end)
-      && (N.of_nat (length data) <? 2^64) && wf_bytesb data
-  | MXferAck flags xid len => (flags <? 256) && (xid <? 2^64) && (len <? 2^64)
-  | MXferRefuse reason xid => (reason <? 256) && (xid <? 2^64)
-  | MKeepalive => true
-  | MSessTerm flags reason => (flags <? 256) && (reason <? 256)
-  | MReject rej_id reason => (rej_id <? 256) && (reason <? 256)
-  | MSessInit ka smru xmru nodeid exts =>
-      (ka <? 65536) && (smru <? 2^64) && (xmru <? 2^64)
-      && (N.of_nat (length nodeid) <? 65536) && wf_bytesb nodeid
-      && forallb (wf_extb sess_ext_len) exts
-      && (N.of_nat (length (encode_exts exts)) <? 2^32)
-  end.
-
-(** ** Parsing (the probe) *)
-
-Definition take_n (n : nat) (l : bytes) : option (bytes * bytes) :=
-  if (length l <? n)%nat then None else Some (firstn n l, skipn n l).
-
-(** Extension items filling a length-delimited region exactly. *)
+(** RFC 9174 reading: TLVs filling the region exactly; a type bound to a
+    fixed-size definition must carry exactly that many value octets. *)
 Fixpoint parse_exts (known : N -> option nat) (fuel : nat) (l : bytes) : option (list extitem) :=
   match l with
   | [] => Some []
@@ -173,17 +116,135 @@ Fixpoint parse_exts (known : N -> option nat) (fuel : nat) (l : bytes) : option 
     end
   end.
 
-Definition parse_ext_region (known : N -> option nat) (l : bytes) : option (list extitem * bytes) :=
+Definition spec_exts (known : N -> option nat) (region : bytes) : option (list extitem) :=
+  parse_exts known (S (length region)) region.
+
+(** What the implementation's dissector reports as [ext_items]:
+    [XItem fl ty len val] -- a TlvHead whose payload (after padding removal) is
+    [val]; [XRaw b] -- the fallback Raw entry holding everything that was left.
+    An item dissects only if its length field equals the size of all that is
+    left of the region after its header.  For a bound type with more than its
+    fixed size left, the first [k] octets are its fields and the rest is
+    "padding" that re-enters the item loop. *)
+Inductive extview := XItem (fl ty len : N) (val : bytes) | XRaw (b : bytes).
+
+Fixpoint scapy_exts (known : N -> option nat) (fuel : nat) (l : bytes) : list extview :=
+  match l with
+  | [] => []
+  | _ :: _ =>
+    match fuel with
+    | O => [XRaw l]
+    | S f =>
+      match take_be 1 l with None => [XRaw l] | Some (fl, l1) =>
+      match take_be 2 l1 with None => [XRaw l] | Some (ty, l2) =>
+      match take_be 2 l2 with None => [XRaw l] | Some (len, rest) =>
+        if N.of_nat (length rest) =? len then
+          match known ty with
+          | None => [XItem fl ty len rest]
+          | Some k =>
+              if (length rest <=? k)%nat then [XItem fl ty len rest]
+              else XItem fl ty len (firstn k rest) :: scapy_exts known f (skipn k rest)
+          end
+        else [XRaw l]
+      end end end
+    end
+  end.
+
+Definition scapy_view (known : N -> option nat) (region : bytes) : list extview :=
+  scapy_exts known (S (length region)) region.
+
+(** scapy's [conf.max_list_count]. *)
+Definition MAX_LIST_COUNT : nat := 100.
+Definition ext_count_ok (known : N -> option nat) (region : bytes) : bool :=
+  (length (scapy_view known region) <=? MAX_LIST_COUNT)%nat.
+
+(** ** Encoding *)
+
+Definition encode_msg (m : msg) : bytes :=
+  match m with
+  | MXferSeg flags xid ext data =>
+      [1] ++ be 1 flags ++ be 8 xid
+      ++ (if has_start flags
+          then be 4 (N.of_nat (length ext)) ++ ext
+          else [])
+      ++ be 8 (N.of_nat (length data)) ++ data
+  | MXferAck flags xid len => [2] ++ be 1 flags ++ be 8 xid ++ be 8 len
+  | MXferRefuse reason xid => [3] ++ be 1 reason ++ be 8 xid
+  | MKeepalive => [4]
+  | MSessTerm flags reason => [5] ++ be 1 flags ++ be 1 reason
+  | MReject rej_id reason => [6] ++ be 1 rej_id ++ be 1 reason
+  | MSessInit ka smru xmru nodeid ext =>
+      [7] ++ be 2 ka ++ be 8 smru ++ be 8 xmru
+      ++ be 2 (N.of_nat (length nodeid)) ++ nodeid
+      ++ be 4 (N.of_nat (length ext)) ++ ext
+  end.
+
+Definition encode_contact (c : contact) : bytes :=
+  ch_magic c ++ be 1 (ch_version c) ++ be 1 (ch_flags c).
+
+Definition encode_frame (f : frame) : bytes :=
+  match f with FContact c => encode_contact c | FMsg m => encode_msg m end.
+
+(** ** Well-formedness: every field fits its width *)
+
+Definition wf_region (known : N -> option nat) (ext : bytes) : Prop :=
+  N.of_nat (length ext) < 2^32 /\ wf_bytes ext /\ ext_count_ok known ext = true.
+
+Definition wf_msg (m : msg) : Prop :=
+  match m with
+  | MXferSeg flags xid ext data =>
+      flags < 256 /\ xid < 2^64 /\ wf_region xfer_ext_len ext
+      /\ (has_start flags = false -> ext = [])
+      /\ N.of_nat (length data) < 2^64 /\ wf_bytes data
+  | MXferAck flags xid len => flags < 256 /\ xid < 2^64 /\ len < 2^64
+  | MXferRefuse reason xid => reason < 256 /\ xid < 2^64
+  | MKeepalive => True
+  | MSessTerm flags reason => flags < 256 /\ reason < 256
+  | MReject rej_id reason => rej_id < 256 /\ reason < 256
+  | MSessInit ka smru xmru nodeid ext =>
+      ka < 65536 /\ smru < 2^64 /\ xmru < 2^64
+      /\ N.of_nat (length nodeid) < 65536 /\ wf_bytes nodeid
+      /\ wf_region sess_ext_len ext
+  end.
+
+Definition wf_contact (c : contact) : Prop :=
+  length (ch_magic c) = 4%nat /\ wf_bytes (ch_magic c) /\ ch_version c < 256 /\ ch_flags c < 256.
+
+Definition wf_frame (f : frame) : Prop :=
+  match f with FContact c => wf_contact c | FMsg m => wf_msg m end.
+
+(** Boolean versions (for the generated case files and non-vacuity examples). *)
+Definition wf_regionb (known : N -> option nat) (ext : bytes) : bool :=
+  (N.of_nat (length ext) <? 2^32) && wf_bytesb ext && ext_count_ok known ext.
+
+Definition wf_msgb (m : msg) : bool :=
+  match m with
+  | MXferSeg flags xid ext data =>
+      (flags <? 256) && (xid <? 2^64) && wf_regionb xfer_ext_len ext
+      && (has_start flags || match ext with [] => true | _ => false end)
+      && (N.of_nat (length data) <? 2^64) && wf_bytesb data
+  | MXferAck flags xid len => (flags <? 256) && (xid <? 2^64) && (len <? 2^64)
+  | MXferRefuse reason xid => (reason <? 256) && (xid <? 2^64)
+  | MKeepalive => true
+  | MSessTerm flags reason => (flags <? 256) && (reason <? 256)
+  | MReject rej_id reason => (rej_id <? 256) && (reason <? 256)
+  | MSessInit ka smru xmru nodeid ext =>
+      (ka <? 65536) && (smru <? 2^64) && (xmru <? 2^64)
+      && (N.of_nat (length nodeid) <? 65536) && wf_bytesb nodeid
+      && wf_regionb sess_ext_len ext
+  end.
+
+(** ** Parsing (the probe) *)
+
+(** The extension region: a four-octet size and that many octets, whatever
+    they are (subject only to scapy's list-count limit). *)
+Definition parse_ext_region (known : N -> option nat) (l : bytes) : option (bytes * bytes) :=
   match take_be 4 l with
   | None => None
   | Some (size, l1) =>
     match take_n (N.to_nat size) l1 with
     | None => None
-    | Some (region, l2) =>
-      match parse_exts known (S (length region)) region with
-      | Some items => Some (items, l2)
-      | None => None
-      end
+    | Some (region, l2) => if ext_count_ok known region then Some (region, l2) else None
     end
   end.
 
@@ -193,10 +254,10 @@ Definition parse_body (id : N) (l : bytes) : option (msg * bytes) :=
     match take_be 8 l1 with None => None | Some (xid, l2) =>
     match (if has_start flags then parse_ext_region xfer_ext_len l2 else Some ([], l2)) with
     | None => None
-    | Some (exts, l3) =>
+    | Some (ext, l3) =>
       match take_be 8 l3 with None => None | Some (len, l4) =>
       match take_n (N.to_nat len) l4 with None => None | Some (data, l5) =>
-        Some (MXferSeg flags xid exts data, l5)
+        Some (MXferSeg flags xid ext data, l5)
       end end
     end end end
   else if id =? 2 then
@@ -227,8 +288,8 @@ Definition parse_body (id : N) (l : bytes) : option (msg * bytes) :=
     match take_be 8 l2 with None => None | Some (xmru, l3) =>
     match take_be 2 l3 with None => None | Some (nlen, l4) =>
     match take_n (N.to_nat nlen) l4 with None => None | Some (nodeid, l5) =>
-    match parse_ext_region sess_ext_len l5 with None => None | Some (exts, l6) =>
-      Some (MSessInit ka smru xmru nodeid exts, l6)
+    match parse_ext_region sess_ext_len l5 with None => None | Some (ext, l6) =>
+      Some (MSessInit ka smru xmru nodeid ext, l6)
     end end end end end end
   else None.  (* unknown message type: never complete (the stream stalls) *)
 
@@ -254,20 +315,29 @@ Definition parse_frame (in_conn : bool) (l : bytes) : option (frame * bytes) :=
 
 (** Rendering for the correspondence files: a message as a flat list of
     numbers and octet strings the Python side can compare with scapy's
-    dissection. *)
-Definition render_ext (e : extitem) : list bytes := [[ei_flags e]; [ei_type e]; ei_val e].
+    dissection.  The extension region is one octet string (last entry). *)
 Definition render_msg (m : msg) : list bytes :=
   match m with
-  | MXferSeg flags xid exts data => [[1]; [flags]; [xid]; data] ++ concat (map render_ext exts)
+  | MXferSeg flags xid ext data => [[1]; [flags]; [xid]; data; ext]
   | MXferAck flags xid len => [[2]; [flags]; [xid]; [len]]
   | MXferRefuse reason xid => [[3]; [reason]; [xid]]
   | MKeepalive => [[4]]
   | MSessTerm flags reason => [[5]; [flags]; [reason]]
   | MReject rej reason => [[6]; [rej]; [reason]]
-  | MSessInit ka smru xmru nodeid exts => [[7]; [ka]; [smru]; [xmru]; nodeid] ++ concat (map render_ext exts)
+  | MSessInit ka smru xmru nodeid ext => [[7]; [ka]; [smru]; [xmru]; nodeid; ext]
   end.
 Definition render_frame (f : frame) : list bytes :=
   match f with
   | FContact c => [[0]; ch_magic c; [ch_version c]; [ch_flags c]]
   | FMsg m => render_msg m
   end.
+
+(** Item-level renderings. *)
+Definition render_ext (e : extitem) : list bytes := [[ei_flags e]; [ei_type e]; ei_val e].
+Definition render_exts (l : list extitem) : list (list bytes) := map render_ext l.
+Definition render_extview (v : extview) : list bytes :=
+  match v with
+  | XItem fl ty len val => [[1]; [fl]; [ty]; [len]; val]
+  | XRaw b => [[0]; b]
+  end.
+Definition render_view (l : list extview) : list (list bytes) := map render_extview l.
